@@ -342,6 +342,16 @@ def _rand_rxn(rng, order, subst):
     return {'reac': reac, 'prod': prod}
 
 
+def _net(r, x):
+    """net stoichiometry of substance x in a reaction: active AND inactive (parenthesised) parts"""
+    return (r['prod'].get(x, 0) - r['reac'].get(x, 0) + r.get('inact_prod', {}).get(x, 0) - r.get('inact_reac', {}).get(x, 0))
+
+
+def _mkrxn(r, param):
+    from chempy import Reaction
+    return Reaction(dict(r['reac']), dict(r['prod']), param, dict(r.get('inact_reac', {})) or None, dict(r.get('inact_prod', {})) or None)
+
+
 def _rand_system(rng, tier, spectator=False):
     ns = rng.randint(2, 3 if spectator else 4)
     subst = SUBST[:ns]
@@ -349,10 +359,27 @@ def _rand_system(rng, tier, spectator=False):
     rxns = [_rand_rxn(rng, rng.choice([0, 1, 1, 2, 2, 3]), subst) for _ in range(nr)]
     # every substance must take part, and no derivative may be a bare constant (pyodesys needs a symbol in it)
     for s in subst:
-        touching = [r for r in rxns if r['prod'].get(s, 0) != r['reac'].get(s, 0)]
+        touching = [r for r in rxns if _net(r, s) != 0]
         if not touching or all(sum(r['reac'].values()) == 0 for r in touching):
             other = rng.choice([x for x in subst if x != s])
             rxns.append({'reac': {s: 1}, 'prod': {other: 1}})
+    if rng.random() < 0.25:     # inactive (parenthesised, e.g. solvent) species: in the net stoichiometry, not in the rate law
+        for r in rng.sample(rxns, rng.randint(1, min(2, len(rxns)))):
+            for key in ('inact_reac', 'inact_prod'):
+                d = {}
+                for _ in range(rng.choice([0, 1, 1, 2])):
+                    x = rng.choice(subst)
+                    d[x] = d.get(x, 0) + 1
+                if d:
+                    r[key] = d
+            if all(_net(r, x) == 0 for x in subst):     # Reaction's own check_any_effect would refuse it
+                r.pop('inact_reac', None)
+                r.pop('inact_prod', None)
+        # pyodesys needs a symbol in every derivative: a substance whose only non-zero net terms are zero-order gets a sink
+        for s in subst:
+            touching = [r for r in rxns if _net(r, s) != 0]
+            if touching and all(sum(r['reac'].values()) == 0 for r in touching):
+                rxns.append({'reac': {s: 1}, 'prod': {rng.choice([x for x in subst if x != s]): 1}})
     if spectator:       # a substance of the system that takes part in no reaction: get_odesys must refuse (ValueError)
         subst = subst + [SUBST[len(subst)]]
         if rng.random() < 0.5:
@@ -818,7 +845,9 @@ class C10(Property):
         out = []
         for r in c['rxns']:
             out.append({'reac': [[idx[s], n] for s, n in sorted(r['reac'].items())],
-                        'prod': [[idx[s], n] for s, n in sorted(r['prod'].items())]})
+                        'prod': [[idx[s], n] for s, n in sorted(r['prod'].items())],
+                        'inact_reac': [[idx[s], n] for s, n in sorted(r.get('inact_reac', {}).items())],
+                        'inact_prod': [[idx[s], n] for s, n in sorted(r.get('inact_prod', {}).items())]})
         return out
 
     def _unique(self, c):
@@ -907,6 +936,8 @@ class C10(Property):
         if k in ('ode', 'ode_named'):
             if c.get('spectator'):
                 return k + ' with a spectator substance'
+            if any('inact_reac' in r or 'inact_prod' in r for r in c['rxns']):
+                return k + ' with inactive (parenthesised) species' + (' typed' if c.get('typed') else '')
             if c.get('typed'):
                 return k + ' with integer / numpy-scalar / Fraction magnitudes'
             return '%s orders=%s' % (k, ''.join(str(sum(r['reac'].values())) for r in c['rxns']))
@@ -980,7 +1011,7 @@ class C10(Property):
                 par = MassAction(Symbol(unique_keys=('k%d' % i,)))
             else:
                 par = ('k%d' % i) if named else _real(k)
-            rx.append(Reaction(dict(r['reac']), dict(r['prod']), par))
+            rx.append(_mkrxn(r, par))
         return ReactionSystem(rx, ' '.join(c['subst']))
 
     def _run_ode(self, c, conf, named):
@@ -1072,7 +1103,7 @@ class C10(Property):
     def _run_no_registry(self, c):
         from chempy import Reaction, ReactionSystem
         from chempy.kinetics.ode import get_odesys
-        rx = [Reaction(dict(r['reac']), dict(r['prod']), ('k%d' % i) if c['named'] else float(F(k)))
+        rx = [_mkrxn(r, ('k%d' % i) if c['named'] else float(F(k)))
               for i, (r, k) in enumerate(zip(c['rxns'], c['ks']))]
         odesys, extra = get_odesys(ReactionSystem(rx, ' '.join(c['subst'])), include_params=not c['named'])
         p = {('k%d' % i): float(F(k)) for i, k in enumerate(c['ks'])} if c['named'] else ()
@@ -1143,7 +1174,7 @@ class C10(Property):
         for sy in c['systems']:
             conf = sy['conf']
             vals = [_real(q) for q in conf['ks']]
-            rx = [Reaction(dict(r['reac']), dict(r['prod']), MassAction([v], unique_keys=(key,)))
+            rx = [_mkrxn(r, MassAction([v], unique_keys=(key,)))
                   for r, v, key in zip(sy['rxns'], vals, sy['keys'])]
             rsys = ReactionSystem(rx, ' '.join(sy['subst']))
             odesys, extra = get_odesys(rsys, include_params=sy['include'], unit_registry=_real_reg(conf['reg']))
@@ -1307,7 +1338,7 @@ class C10(Property):
         out = []
         rates = self._hand_rates(c, conf)
         for s in c['subst']:
-            tot = sum(abs(r['prod'].get(s, 0) - r['reac'].get(s, 0)) * abs(rt) for r, rt in zip(c['rxns'], rates))
+            tot = sum(abs(_net(r, s)) * abs(rt) for r, rt in zip(c['rxns'], rates))
             out.append(float(tot / unit))
         return out
 
@@ -1322,7 +1353,7 @@ class C10(Property):
 
     def _plain_scales(self, c):
         rates = self._plain_rates(c)
-        return [float(sum(abs(r['prod'].get(x, 0) - r['reac'].get(x, 0)) * abs(rt) for r, rt in zip(c['rxns'], rates))) for x in c['subst']]
+        return [float(sum(abs(_net(r, x)) * abs(rt) for r, rt in zip(c['rxns'], rates))) for x in c['subst']]
 
     def _hand_rates(self, c, conf):
         """rate of every reaction in SI (mol m-3 s-1), from the SI values of constant and concentrations"""
@@ -1336,7 +1367,7 @@ class C10(Property):
 
     def _hand_rhs(self, c, conf):
         rates = self._hand_rates(c, conf)
-        return [sum((r['prod'].get(s, 0) - r['reac'].get(s, 0)) * rt for r, rt in zip(c['rxns'], rates)) for s in c['subst']]
+        return [sum(_net(r, s) * rt for r, rt in zip(c['rxns'], rates)) for s in c['subst']]
 
     # ------------------------------------------------------------------------------------------------ oracle
     def oracle(self, c):
@@ -1357,21 +1388,15 @@ class C10(Property):
         if k == 'ode_named_wrong':
             try:
                 f, _ = self._run_ode(c, c['A'], named=True)
-            except Exception:
-                return None
+            except InputMutated as e:
+                return str(e)
+            except ValueError:
+                return None          # the refusal the model states (named_constant_wrong_dimension_refused: ValueError)
+            except Exception as e:
+                return 'named rate constant of the wrong dimension: to_arrays raised %s (%s) instead of ValueError' % (exc_name(e), str(e)[:100])
             return 'named rate constant %d has dimension %s (order %d needs %s) but to_arrays accepted it: f=%r' % (
                 c['bad'], _book(c['A']['ks'][c['bad']])[2], sum(c['rxns'][c['bad']]['reac'].values()),
                 rate_dims(sum(c['rxns'][c['bad']]['reac'].values())), f)
-        if k == 'no_registry':
-            return self._oracle_no_registry(c)
-        if k == 'cstr_units':
-            return self._oracle_cstr_units(c)
-        if k == 'history':
-            return self._oracle_history(c)
-        if k == 'as_reactions':
-            return self._oracle_as_reactions(c)
-        if k == 'ode_expr':
-            return self._oracle_expr(c)
         if k == 'roundtrip':
             return self._oracle_roundtrip(c)
         if k == 'dedim_tcp':
@@ -1653,7 +1678,7 @@ class C10(Property):
         from chempy.kinetics.rates import MassAction
         sy = c['systems'][-1]
         conf = sy['conf']
-        rx = [Reaction(dict(r['reac']), dict(r['prod']), MassAction([_real(q)], unique_keys=(key,)))
+        rx = [_mkrxn(r, MassAction([_real(q)], unique_keys=(key,)))
               for r, q, key in zip(sy['rxns'], conf['ks'], sy['keys'])]
         rsys = ReactionSystem(rx, ' '.join(sy['subst']))
         variables = {x: _real(conf['c0'][x]) for x in sy['subst']}
@@ -1792,7 +1817,7 @@ class C10(Property):
                 pass
         rates = self._plain_rates(c)
         for x, v, sc in zip(c['subst'], f, self._plain_scales(c)):
-            w = sum((r['prod'].get(x, 0) - r['reac'].get(x, 0)) * rt for r, rt in zip(c['rxns'], rates))
+            w = sum(_net(r, x) * rt for r, rt in zip(c['rxns'], rates))
             if not _close(v, w, sc):
                 return 'without registry: d[%s]/dt = %r, plain computation on the same numbers %r' % (x, v, float(w))
         return None
